@@ -13,6 +13,7 @@ import AnthemModel.Model.TptpFmt
 import AnthemModel.Model.External
 import AnthemModel.Model.Files
 import AnthemModel.Model.Status
+import AnthemModel.Model.Print
 import Driver.Search
 open Anthem
 
@@ -188,6 +189,26 @@ def respond (req : Sexp) : Sexp :=
     | .ok st => .list [.atom "ok", .atom ((reprStr st).replace "Anthem.Status." "")]
     | .missing => .atom "missing"
     | .unknown w => .list [.atom "unknown", .str w]
+  | .list [.atom "print_program", p] =>
+    match Asp.programOfSexp p with
+    | some p => .str (Asp.printProgram p)
+    | none => bad
+  | .list [.atom "print_formula", f] =>
+    match Formula.ofSexp f with
+    | some f => .str f.print
+    | none => bad
+  | .list [.atom "print_spec", sp] =>
+    match listOf SAnn.ofSexp sp with
+    | some sp => .str (printSpecification sp)
+    | none => bad
+  | .list [.atom "print_ug", ug] =>
+    match listOf UGEntry.ofSexp ug with
+    | some ug => .str (printUserGuide ug)
+    | none => bad
+  | .list [.atom "decompose", p, .atom dec] =>
+    match Problem.ofSexp p, Decomposition.ofName dec with
+    | some p, some dec => .list ((p.decompose dec).map Problem.toSexp)
+    | _, _ => bad
   | .list [.atom "free_vars", f] =>
     match Formula.ofSexp f with
     | some f => .list (f.fv.map Var.toSexp)
